@@ -13,7 +13,7 @@ import traceback
 from . import build
 
 VERIF = build.VERIF
-EVIDENCE_DIR = os.path.join(VERIF, 'evidence')
+EVIDENCE_DIR = os.environ.get('VERIF_EVIDENCE_DIR') or os.path.join(VERIF, 'evidence')   # override: soak runs that must not touch the committed records
 REPLAY_DIR = os.path.join(VERIF, 'replay')
 KNOWN_FILE = os.path.join(VERIF, 'known_findings.txt')
 
